@@ -7,6 +7,7 @@ import DateutilVerif.Proofs.RenderMon
 import DateutilVerif.Proofs.RenderCompact
 import DateutilVerif.Proofs.RenderClock
 import DateutilVerif.Spec.ParserTemplatesGen
+import DateutilVerif.Proofs.LexDot3
 
 namespace PM
 open Py PT
@@ -44,6 +45,45 @@ theorem lex_dec12' (d : Nat) (rest : List Char) (he : NumEnds cls rest) :
   split
   · exact lex_dtok cls d [] rest he
   · exact lex_pad2 cls d rest he
+
+/-- a day number directly followed by `, ` (`Month D, YYYY`): one digit — the comma ends the number at once; two digits — the comma
+    is first taken into the number and split off again -/
+theorem lex_dec12_comma_sp (d : Nat) (r : List Char) :
+    scan cls .init (dec12 d ++ (',' :: (' ' :: r))) = dayTok d :: [','] :: scan cls .init (' ' :: r) := by
+  have hcomma : cls ',' = .other := cls_other cls ',' (by decide)
+  have hcn : (cls ',').isNum = false := by rw [hcomma]; rfl
+  have hsp : cls ' ' = .space := cls_space cls ' ' (by decide)
+  unfold dec12 dayTok
+  split
+  · exact lex_num1_comma cls (digitChar d) (' ' :: r) (drun_dtok cls [d]) hcomma
+  · have := lex_num_comma cls (digitChar (d / 10)) [digitChar d] ' ' r
+      (drun_dtok cls [d / 10, d]) (by simp) hcn (by decide) (by rw [hsp]; rfl) (by decide) (by rw [hsp]; rfl)
+    simpa [pad2, dtok] using this
+
+theorem fracEnds_of_numEnds (rest : List Char) (h : NumEnds cls rest) : FracEnds cls rest := by
+  cases rest with
+  | nil => trivial
+  | cons c r => exact ⟨h.1, h.2.1, h.2.2.1⟩
+
+/-- `DD.MM.YYYY`: one token to the state machine, five after the `[.,]` re-split -/
+theorem lex_dot3_224 (a b c : Nat) (rest : List Char) (he : FracEnds cls rest) :
+    scan cls .init (pad2 a ++ ('.' :: (pad2 b ++ ('.' :: (pad4 c ++ rest))))) =
+      dtok [a / 10, a] :: ['.'] :: dtok [b / 10, b] :: ['.'] :: y4 c :: scan cls .init rest := by
+  have hdot : (cls '.').isNum = false := by rw [AsciiOK.agree (cls := cls) '.' (by decide)]; decide
+  have := lex_dot3 cls (digitChar (a / 10)) [digitChar a] (digitChar (b / 10)) [digitChar b]
+    (digitChar (c / 1000)) [digitChar (c / 100), digitChar (c / 10), digitChar c] rest hdot
+    (drun_dtok cls [a / 10, a]) (drun_dtok cls [b / 10, b]) (drun_dtok cls [c / 1000, c / 100, c / 10, c]) he
+  simpa [pad2, pad4, dtok, y4] using this
+
+/-- `YYYY.MM.DD` -/
+theorem lex_dot3_422 (a b c : Nat) (rest : List Char) (he : FracEnds cls rest) :
+    scan cls .init (pad4 a ++ ('.' :: (pad2 b ++ ('.' :: (pad2 c ++ rest))))) =
+      y4 a :: ['.'] :: dtok [b / 10, b] :: ['.'] :: dtok [c / 10, c] :: scan cls .init rest := by
+  have hdot : (cls '.').isNum = false := by rw [AsciiOK.agree (cls := cls) '.' (by decide)]; decide
+  have := lex_dot3 cls (digitChar (a / 1000)) [digitChar (a / 100), digitChar (a / 10), digitChar a]
+    (digitChar (b / 10)) [digitChar b] (digitChar (c / 10)) [digitChar c] rest hdot
+    (drun_dtok cls [a / 1000, a / 100, a / 10, a]) (drun_dtok cls [b / 10, b]) (drun_dtok cls [c / 10, c]) he
+  simpa [pad2, pad4, dtok, y4] using this
 
 theorem monWordA (yf : Bool) (year century : Int) (m : Nat) (h1 : 1 ≤ m) (h2 : m ≤ 12) :
     MonWord cls (Info.default false yf year century) (monAbbr m) m ∧ isAlphaWord (monAbbr m) = true := by
